@@ -1007,6 +1007,14 @@ static void gen_expr(Node *node) {
 
     int sz = node->lhs->ty->base->size;
     println("  xchg %s, (%%rdi)", reg_ax(sz));
+
+    // A narrow exchange leaves the upper bits of the new value in the
+    // register; extend the old value like a load of that type would.
+    char *insn = node->ty->is_unsigned ? "movz" : "movs";
+    if (sz == 1)
+      println("  %sbl %%al, %%eax", insn);
+    else if (sz == 2)
+      println("  %swl %%ax, %%eax", insn);
     return;
   }
   }
